@@ -333,4 +333,93 @@ def keyUnderOutput (e : String) : Bool := e == "output" || e == "output.joinpath
 
 def EncodableAll (env : Env) : Prop := ∀ m ∈ env.mods, env.encodable m.2 = true
 
+/-! ### refusals: the `raise` statements of `generate()` with the conditions that guard them -/
+
+/-- one `raise` statement reachable from `generate()` (its own, or one of a module-level helper it calls — then the
+conditions of the call site come first): where it is, what is raised, with which message, under which conditions
+(normalised source of the enclosing `if` tests in order; `not (…)` for an `else` branch; `except …` for a handler), and
+where it stands relative to `parser.parse()` and to the first file-system effect. -/
+structure Refusal where
+  fn : String
+  exc : String
+  msg : String
+  conds : List String
+  afterParse : Bool
+  beforeFirstWrite : Bool
+  deriving DecidableEq, Repr
+
+/-- what `parser.parse()` returned: nothing, one text (single module), a dict of modules -/
+inductive ResultKind where
+  | nothing | single | modular
+  deriving DecidableEq, Repr
+
+/-- the `output=` argument as the refusal conditions see it -/
+structure OutputArg where
+  isNone : Bool
+  hasSuffix : Bool   -- `output.suffix` is non-empty: the path is file-like (`models.py`)
+  deriving DecidableEq, Repr
+
+inductive Decision where
+  | proceeds
+  | refused (msg : String)
+  | unreviewed (cond : String)   -- a condition the model does not know how to evaluate
+  deriving DecidableEq, Repr
+
+/-- THE CONTRACT (property text: "modular result requested into a single file" is a failure; README/docs: "Modular references
+require an output directory"): after a successful parse the run is refused iff there are no models, or the result is modular
+and the output is stdout or a file-like path. Everything else proceeds to the write loop. -/
+def contractDecision (r : ResultKind) (o : OutputArg) : Decision :=
+  match r with
+  | .nothing => .refused "Models not found in the input data"
+  | .single => .proceeds
+  | .modular =>
+    if o.isNone then .refused "Modular references require an output directory"
+    else if o.hasSuffix then .refused "Modular references require an output directory, not a file"
+    else .proceeds
+
+/-- the reviewed atoms of the after-parse conditions; `none` = not an atom the model knows.
+`output.suffix` is only evaluated on a path (the code tests `output is None` first). -/
+def evalCond (r : ResultKind) (o : OutputArg) (c : String) : Option Bool :=
+  if c == "not results" then some (r == .nothing)
+  else if c == "isinstance(results, str)" then some (r == .single)
+  else if c == "not (isinstance(results, str))" then some (r != .single)
+  else if c == "output is None" then some o.isNone
+  else if c == "not (output is None)" then some (!o.isNone)
+  else if c == "output.suffix" then (if o.isNone then none else some o.hasSuffix)
+  else none
+
+/-- all conditions of one refusal, left to right with short-circuit (as nested `if`s evaluate) -/
+def condsHold (r : ResultKind) (o : OutputArg) : List String → Decision
+  | [] => .refused ""
+  | c :: cs => match evalCond r o c with
+    | none => .unreviewed c
+    | some false => .proceeds
+    | some true => condsHold r o cs
+
+/-- what the EXTRACTED table decides after a successful parse: the first refusal (source order) that stands after
+`parser.parse()` and whose conditions hold. -/
+def tableDecision (r : ResultKind) (o : OutputArg) : List Refusal → Decision
+  | [] => .proceeds
+  | x :: xs =>
+    if x.afterParse then
+      match condsHold r o x.conds with
+      | .refused _ => .refused x.msg
+      | .unreviewed c => .unreviewed c
+      | .proceeds => tableDecision r o xs
+    else tableDecision r o xs
+
+def allResultKinds : List ResultKind := [.nothing, .single, .modular]
+def allOutputArgs : List OutputArg := [⟨true, false⟩, ⟨true, true⟩, ⟨false, false⟩, ⟨false, true⟩]
+
+/-- the extracted refusals decide exactly what the contract says, for every kind of result and of output argument -/
+def tableMeetsContract (t : List Refusal) : Bool :=
+  allResultKinds.all fun r => allOutputArgs.all fun o => tableDecision r o t == contractDecision r o
+
+/-- first (result, output) on which table and contract differ -/
+def contractRefuter (t : List Refusal) : Option (ResultKind × OutputArg) :=
+  (allResultKinds.flatMap fun r => allOutputArgs.map fun o => (r, o)).find? fun p => tableDecision p.1 p.2 t != contractDecision p.1 p.2
+
+/-- every reviewed refusal is in the extracted table exactly as reviewed -/
+def reviewedPresent (reviewed t : List Refusal) : Bool := reviewed.all fun r => t.contains r
+
 end Dcg.Model.Write
